@@ -68,6 +68,9 @@ def has_cr_nul(ts):
     return None
 
 
+CR_REF = re.compile(r"&#(?:0*13|[xX]0*[dD]);")
+
+
 def encoding_property(cfg, src):
     """src without CR.  None or a violation."""
     md = configs.make_md(cfg)
@@ -77,7 +80,8 @@ def encoding_property(cfg, src):
         base = dump(md, src)
     except Exception:  # noqa: BLE001
         return None
-    bad = has_cr_nul(base[0])
+    # a numeric character reference to U+000D legitimately yields a CR in text (it never was a line end)
+    bad = None if CR_REF.search(src) else has_cr_nul(base[0])
     if bad:
         return {"what": "CR or NUL reached a token", "where": bad}
     import random
